@@ -524,6 +524,33 @@ func c09Oracle(p c09Params) func(tr *mc.Trace) []h.Violation {
 			return r
 		}
 		desc := strings.Join(story, "; ")
+		// a Send pending across the start of a connection delays the client's entry into that
+		// connection (known finding): its heartbeat schedule then starts late
+		sendAcross := func(t mc.Duration) bool {
+			ep := modeAt(t)
+			if ep == nil || ep.mode != mConnected {
+				return false
+			}
+			var callT, retT = map[int]mc.Duration{}, map[int]mc.Duration{}
+			for _, e := range tr.Log {
+				switch x := e.V.(type) {
+				case Call:
+					if x.Call == "Send" {
+						callT[x.ID] = e.T
+					}
+				case Ret:
+					if x.Call == "Send" {
+						retT[x.ID] = e.T
+					}
+				}
+			}
+			for id, tc := range callT {
+				if tr2, ok := retT[id]; tc < ep.from && (!ok || tr2 > ep.from) {
+					return true
+				}
+			}
+			return false
+		}
 		firstTxSeen := false
 		for _, e := range tr.Log {
 			s, ok := e.V.(fakesock.Sent)
@@ -573,6 +600,9 @@ func c09Oracle(p c09Params) func(tr *mc.Trace) []h.Violation {
 						cls = "stale-channel"
 					}
 				}
+				if kind == "ConnStateReq" && sendAcross(e.T) {
+					cls += ":send-pending-across-reconnect"
+				}
 				bad(cls, "%s left the socket at %v; the reference machine expects no such frame then (%s)", fakesock.Describe(s.Svc), e.T, desc)
 			}
 		}
@@ -581,7 +611,11 @@ func c09Oracle(p c09Params) func(tr *mc.Trace) []h.Violation {
 			if x.matched || x.optional || (overlapping && x.kind == "ConnStateReq") {
 				continue
 			}
-			bad("missing-"+x.kind, "no %s (channel %d) left the socket at %v: %s (%s)", x.kind, x.ch, x.t, x.why, desc)
+			cls := "missing-" + x.kind
+			if x.kind == "ConnStateReq" && sendAcross(x.t) {
+				cls += ":send-pending-across-reconnect"
+			}
+			bad(cls, "no %s (channel %d) left the socket at %v: %s (%s)", x.kind, x.ch, x.t, x.why, desc)
 			break
 		}
 		// ---- data frames, Sends, inbound ----
